@@ -196,7 +196,26 @@ func validate(ctx context.Context, s storage.Storage, env *vkit.Env, via string,
 		}
 		target = &exposedStorage{Storage: s, partStore: nps.Default()}
 	}
-	return integrity.NewValidator(target, dbc, del, del).ValidateAll(ctx)
+	return guardValidate(func() (*integrity.ValidationReport, error) {
+		return integrity.NewValidator(target, dbc, del, del).ValidateAll(ctx)
+	})
+}
+
+func failSig(err error, pass string) string {
+	if strings.Contains(err.Error(), "panic in ValidateAll") {
+		return "validate-all-panics:" + pass
+	}
+	return "validate-all-fails:" + pass
+}
+
+// guardValidate turns a panic inside the validator into an error.
+func guardValidate(f func() (*integrity.ValidationReport, error)) (rep *integrity.ValidationReport, err error) {
+	defer func() {
+		if p := recover(); p != nil {
+			rep, err = nil, fmt.Errorf("panic in ValidateAll: %v", p)
+		}
+	}()
+	return f()
 }
 
 func failedSet(rep *integrity.ValidationReport) (map[string]integrity.ValidationResult, map[string]int) {
@@ -266,7 +285,7 @@ func runC39Case(ctx context.Context, r *vkit.Run, base *vkit.Rand, c c39Case, vi
 	cr := vmodel.Exec(ctx, s, &vmodel.Op{Kind: vmodel.OpMpuCreate, Bucket: b0, Key: "fix/multipart"})
 	if cr.Kind == "" {
 		for pn := int32(1); pn <= 3; pn++ {
-			_ = vmodel.Exec(ctx, s, &vmodel.Op{Kind: vmodel.OpMpuPart, Bucket: b0, Key: "fix/multipart", UploadID: cr.UploadID, PartNumber: pn, Body: rng.Bytes(2000 + rng.Intn(2000))})
+			_ = vmodel.Exec(ctx, s, &vmodel.Op{Kind: vmodel.OpMpuPart, Bucket: b0, Key: "fix/multipart", UploadID: cr.UploadID, PartNumber: pn, Body: rng.Bytes(5000 + rng.Intn(4000))})
 		}
 		_ = vmodel.Exec(ctx, s, &vmodel.Op{Kind: vmodel.OpMpuComplete, Bucket: b0, Key: "fix/multipart", UploadID: cr.UploadID})
 	}
@@ -406,24 +425,64 @@ func runC39Case(ctx context.Context, r *vkit.Run, base *vkit.Rand, c c39Case, vi
 		return sizes[id]
 	}
 	kinds := []string{"flip", "truncate", "extend", "remove", "swap"}
-	for n := 0; n < c.Corruptions; n++ {
-		target := "current"
-		pool := currentParts
-		if len(decoyParts) > 0 && rng.Chance(20) {
-			target, pool = "decoy", decoyParts
+	// target classes: later parts of multi-part objects, parts shared by several
+	// current objects, parts with an equal-size partner (swap), decoys, any
+	var laterParts, sharedParts []string
+	for _, o := range objects {
+		for i, p := range o.Parts {
+			if i > 0 {
+				laterParts = append(laterParts, p.PartID)
+			}
 		}
-		var id string
-		for tries := 0; tries < 20; tries++ {
+	}
+	for _, id := range currentParts {
+		if len(sharers[id]) > 1 {
+			sharedParts = append(sharedParts, id)
+		}
+	}
+	sort.Strings(laterParts)
+	pickFrom := func(pool []string) string {
+		for tries := 0; tries < 30 && len(pool) > 0; tries++ {
 			cand := pool[rng.Intn(len(pool))]
 			if touched[cand] == "" && sizeOf(cand) >= 0 {
-				id = cand
-				break
+				return cand
 			}
+		}
+		return ""
+	}
+	for n := 0; n < c.Corruptions; n++ {
+		kind := kinds[(c.Index+n)%len(kinds)]
+		target, id := "current", ""
+		switch {
+		case kind == "swap":
+			// a part that has an equal-size partner with other bytes
+			bySize := map[int64][]string{}
+			for _, cand := range currentParts {
+				if touched[cand] == "" && sizeOf(cand) > 0 {
+					bySize[sizeOf(cand)] = append(bySize[sizeOf(cand)], cand)
+				}
+			}
+			var cands []string
+			for _, l := range bySize {
+				if len(l) > 1 {
+					cands = append(cands, l...)
+				}
+			}
+			sort.Strings(cands)
+			id = pickFrom(cands)
+		case n == 0 && len(laterParts) > 0:
+			id, target = pickFrom(laterParts), "current(later part of a multi-part object)"
+		case n == 1 && len(sharedParts) > 0:
+			id, target = pickFrom(sharedParts), "current(shared part)"
+		case len(decoyParts) > 0 && rng.Chance(25):
+			id, target = pickFrom(decoyParts), "decoy"
+		}
+		if id == "" {
+			id, target = pickFrom(currentParts), "current"
 		}
 		if id == "" {
 			continue
 		}
-		kind := kinds[(c.Index+n+rng.Intn(2))%len(kinds)]
 		size := sizeOf(id)
 		if size == 0 && (kind == "flip" || kind == "truncate") {
 			kind = "extend"
@@ -602,7 +661,7 @@ func runC39Case(ctx context.Context, r *vkit.Run, base *vkit.Rand, c c39Case, vi
 	// ---- pass 1: report only
 	rep1, err := validate(ctx, s, env, *via, false)
 	if err != nil {
-		r.Violation("validate-all-fails:with-corruption", fmt.Sprintf("ValidateAll (via %s) failed on %s with %d corruptions: %v", *via, c.Spec, len(w.Corruptions), err), w)
+		r.Violation(failSig(err, "with-corruption"), fmt.Sprintf("ValidateAll (via %s) failed on %s with %d corruptions: %v", *via, c.Spec, len(w.Corruptions), err), w)
 		return
 	}
 	r.Count("validations", 1)
@@ -618,7 +677,7 @@ func runC39Case(ctx context.Context, r *vkit.Run, base *vkit.Rand, c c39Case, vi
 	// ---- pass 2: delete corrupted (force)
 	rep2, err := validate(ctx, s, env, *via, true)
 	if err != nil {
-		r.Violation("validate-all-fails:delete-pass", fmt.Sprintf("ValidateAll(deleteCorrupted, force) failed: %v", err), w)
+		r.Violation(failSig(err, "delete-pass"), fmt.Sprintf("ValidateAll(deleteCorrupted, force) failed: %v", err), w)
 		return
 	}
 	r.Count("validations", 1)
@@ -678,7 +737,7 @@ func runC39Case(ctx context.Context, r *vkit.Run, base *vkit.Rand, c c39Case, vi
 	// ---- pass 3: after the deletion nothing corrupted may be left in scope
 	rep3, err := validate(ctx, s, env, *via, false)
 	if err != nil {
-		r.Violation("validate-all-fails:after-delete", fmt.Sprintf("ValidateAll after the delete pass failed: %v", err), w)
+		r.Violation(failSig(err, "after-delete"), fmt.Sprintf("ValidateAll after the delete pass failed: %v", err), w)
 		return
 	}
 	r.Count("validations", 1)
